@@ -395,7 +395,7 @@ def handleOnConnection (cfg : Cfg) (k : Kernel) (fd : Nat) (l r : SockAddr) (s :
           else
             let (t', sendAck) := t.handleEstablished cfg s
             let k1 := k.setSock fd { so with tcb := some t' }
-            if sendAck then k1.emit l r (t'.ackSeg cfg.recvCap l.port r.port) else k1
+            if sendAck then k1.emit l r (t'.replySeg cfg s l.port r.port) else k1
 
 /-- `tcp::deliver` (tcp.rs:131). UDP datagrams are dropped (no UDP receiver is modelled). -/
 def deliver (cfg : Cfg) (k : Kernel) (p : Packet) : Kernel :=
@@ -517,11 +517,10 @@ def persistProbe (cfg : Cfg) (k : Kernel) (fd : Nat) : Kernel :=
     | none => k
     | some t =>
       let l := boundEndpoint s
-      if mssFor cfg l.ip = 0 then k
-      else if t.persistTicks + 1 < cfg.retxThreshold then
+      if t.persistTicks + 1 < cfg.retxThreshold then
         k.setSock fd { s with tcb := some { t with persistTicks := t.persistTicks + 1 } }
       else
-        (k.setSock fd { s with tcb := some t.probed }).emit l t.peer (t.probeSeg cfg.recvCap l.port)
+        (k.setSock fd { s with tcb := some { t with persistTicks := 0 } }).emit l t.peer (t.probeSeg cfg.recvCap l.port)
 
 def persistCands (k : Kernel) : List Nat :=
   k.sockets.filterMap fun e =>
